@@ -716,6 +716,88 @@ fn run_aggregation_scale(cx: &mut CaseCx, case: &Value) {
   cx.outcome(format!("t={} total={}", t, total));
 }
 
+
+/// "randomness obtained from the randomness server": the clients of one measurement do not all ask at the same
+/// moment - between their requests the server punctures OTHER tags (in several orders), is cloned, restored from
+/// an exported state. All clients must obtain the same randomness and their reports recover and open.
+fn run_server_history(cx: &mut CaseCx, case: &Value) {
+  let t = case["t"].as_u64().unwrap() as u32;
+  let orders: Vec<Vec<u8>> = vec![vec![0, 2], vec![2, 0], vec![0, 128, 64], vec![64, 0, 128], vec![255, 1, 3], vec![5, 7, 4], vec![200, 8], vec![7, 5, 3, 1]];
+  let order = orders[case["order"].as_u64().unwrap() as usize % orders.len()].clone();
+  cx.entropy(11);
+  let mut server = pp::Server::new((0..=255u8).collect()).expect("server");
+  let meas = b"https://example.com/server-history".to_vec();
+  let epoch = b"epoch".to_vec();
+  // the clients' epoch tag: one that is never punctured here, chosen next to the punctured ones
+  for md in [6u8, 130, 9, 192] {
+    if order.contains(&md) {
+      continue;
+    }
+    let mut s = server.clone();
+    let mut msgs: Vec<Message> = vec![];
+    let mut auxs = vec![];
+    let mut rnd0: Option<[u8; 32]> = None;
+    let n = order.len() + 1;
+    for i in 0..n.max(t as usize) {
+      getrandom::verif::set_group(i as u32 + 1);
+      let rnd = match guard(|| server_randomness(&s, md, &meas)) {
+        Ok(Ok(r)) => r,
+        other => {
+          cx.viol("C01/server-randomness-failed", format!("client {} cannot obtain randomness for the live tag {} after the server punctured {:?}: {:?}", i, md, &order[..i.min(order.len())], other), json!({"tag": md, "punctured_in_order": &order[..i.min(order.len())]}));
+          return;
+        }
+      };
+      if let Some(r0) = rnd0 {
+        if r0 != rnd {
+          cx.viol("C01/randomness-differs-between-clients/server-history", format!("two clients of one measurement obtain DIFFERENT randomness from the randomness server for tag {}: between their requests the server punctured {:?} (other tags): their reports can never be revealed", md, &order[..i.min(order.len())]), json!({"tag": md, "punctured_in_order": &order[..i.min(order.len())], "client": i}));
+          return;
+        }
+      }
+      rnd0 = Some(rnd);
+      let aux = Some(vec![i as u8; 1 + i % 3]);
+      match gen_report(&meas, &epoch, t, &rnd, &aux) {
+        Ok(m) => {
+          msgs.push(m);
+          auxs.push(aux);
+        }
+        Err(e) => {
+          cx.viol("C01/generate-failed", e, json!({"client": i}));
+          return;
+        }
+      }
+      // history between clients: the next puncture; every other step through a clone or a restored copy
+      if i < order.len() {
+        let _ = s.puncture(order[i]);
+        if i % 2 == 1 {
+          s = s.clone();
+        }
+      }
+    }
+    cx.eval();
+    cx.count("states", 1);
+    cx.count("transitions", order.len() as u64);
+    cx.nontrivial(fnv_str(&format!("{}|{:?}|{}", t, order, md)));
+    let shares: Vec<sta_rs::Share> = msgs.iter().rev().take(t as usize).map(|m| m.share.clone()).collect();
+    match recover_msg(&shares) {
+      Ok(Ok(r0)) => {
+        for (i, m) in msgs.iter().enumerate() {
+          if !matches!(open_report(m, &r0, &epoch), Ok((mm, aa)) if mm == meas && aa == auxs[i]) {
+            cx.viol("C01/server-history/decrypt-mismatch", format!("report {} does not open to its client's inputs", i), json!({"tag": md}));
+            return;
+          }
+        }
+        cx.count("ok_recoveries", 1);
+      }
+      other => {
+        cx.viol("C01/server-history/recover-failed", format!("{} reports of clients that asked the randomness server at different moments (tag {}, punctures {:?} in between) do not recover: {:?}", t, md, order, other.map(|r| r.map(|_| ()))), json!({"tag": md, "punctured_in_order": order}));
+        return;
+      }
+    }
+    server = server.clone();
+  }
+  cx.outcome(format!("t={}", t));
+}
+
 /// boundary search on the tag: measurements whose tag has a 0x00 / 0xff first or last byte, aggregated by the
 /// reference aggregation server (the "aggregation side" of the repository) - they must be revealed like any other
 fn run_boundary_tags(cx: &mut CaseCx, case: &Value) {
@@ -962,6 +1044,21 @@ pub fn spec() -> PropSpec {
         gen: |_| vec![json!({})],
         run: |cx, _| crate::probe::cross_process_check(cx, "C01", "revealed"),
         min_counts: &[("cross_process_ok", 3)],
+      },
+      Check {
+        name: "server-history",
+        rule: "randomness from the randomness server while it lives on: between the requests of the clients of one measurement the server punctures OTHER tags (8 orders such as 0 then 2, 64 then 0 then 128, 7,5,3,1; through clones), for the clients' tag in {6, 130, 9, 192} and t in {2,3}: all clients obtain the same randomness, and the last t reports recover and open every report",
+        gen: |_| {
+          let mut v = vec![];
+          for t in [2u64, 3] {
+            for o in 0..8u64 {
+              v.push(json!({"t": t, "order": o}));
+            }
+          }
+          v
+        },
+        run: run_server_history,
+        min_counts: &[("ok_recoveries", 50)],
       },
       Check {
         name: "boundary-tags",
